@@ -120,7 +120,12 @@ fn main() {
 				let first: String = r.signal_or_error.lines().filter(|l| l.contains("Invalid") || l.contains("uninitialised")).take(3).collect::<Vec<_>>().join(" | ");
 				sink.push(&format!("{b}/invalid-access/valgrind"), b.to_string(), format!("memcheck reports: {first}"));
 			} else if !r.complete {
-				h.run.machinery_error(format!("valgrind run of block {b} did not complete: {}", r.signal_or_error.chars().take(400).collect::<String>()));
+				// the subject itself faults (the plain runs above crash too): a verdict, not a machinery problem
+				if !uns.complete || !ub.complete {
+					sink.push(&format!("{b}/invalid-access/crash-under-valgrind"), b.to_string(), format!("the unsafe_performance build faults in this block: {}", r.signal_or_error.chars().take(400).collect::<String>()));
+				} else {
+					h.run.machinery_error(format!("valgrind run of block {b} did not complete: {}", r.signal_or_error.chars().take(400).collect::<String>()));
+				}
 			} else {
 				// same digests under valgrind
 				for (id, l) in &r.lines {
